@@ -191,6 +191,7 @@ func (g *Gen) run() {
 		}
 		g.assume(s)
 	}
+	g.unfoldChunkDefinitions()
 	// function frame
 	if g.spec.AssignsAll || (!g.spec.HasAssigns && len(g.spec.Ensures) == 0 && len(g.spec.Requires) == 0) {
 		g.assignAll = g.spec.AssignsAll || !g.spec.HasAssigns
